@@ -176,7 +176,13 @@ func (c *c08World) takeRefs() {
 	}
 }
 
-func scC08Serial(r *Run) {
+func scC08Serial(r *Run) { runHeldReaders(r, false) }
+
+// scC05Held: the C05 clause about requests that had already resolved their handler when the writer finalises,
+// rotates or expires the object: complete correct bytes or a non-200, never a truncated or foreign 200 body.
+func scC05Held(r *Run) { runHeldReaders(r, true) }
+
+func runHeldReaders(r *Run, c05Only bool) {
 	T := r.T
 	g := &muxGen{variants: allVariants, minCalls: 30, maxCalls: 200, paramChanges: true, fastRotation: T.Chance(1, 2), negativeStart: true}
 	cfg := genMuxCfg(r, g)
@@ -199,6 +205,10 @@ func scC08Serial(r *Run) {
 		}
 	}
 	r.Arm("rotate.afterBroadcast") // see sc_c06.go: keeps multi-rotation writes repeatable
+	if c05Only {
+		r.Arm("segment.beforeCopy", "part.beforeCopy", "server.beforeHandler")
+		cfg.segCount = map[bool]int{true: 7, false: 3}[cfg.vname == "ll"] // a small window: objects expire while readers are held
+	}
 	nClients := T.Range(1, 6)
 	r.Tracef("config %s calls=%d clients=%d armed=[%s]", cfg, len(script), nClients, armed)
 	c := &c08World{r: r, w: w, cfg: cfg, objects: map[string][]byte{}, latest: map[string]*mediaPL{}, lastMSN: map[string]int{}}
@@ -222,7 +232,11 @@ func scC08Serial(r *Run) {
 		} else {
 			s := c.streams[T.Intn(len(c.streams))]
 			pl := c.latest[s]
-			switch T.Intn(10) {
+			pick := T.Intn(10)
+			if c05Only && pick < 4 {
+				pick = 5 + T.Intn(3) // segments and parts
+			}
+			switch pick {
 			case 0:
 				q.kind, q.path, q.plPath = "index", "index.m3u8", "index.m3u8"
 			case 1, 2:
@@ -304,6 +318,9 @@ func scC08Serial(r *Run) {
 					return // the window moved on while the request was parked before its handler
 				}
 				r.Fail("status", q.kind, "%s request %s returned %d", q.kind, q.path, st)
+				return
+			}
+			if c05Only {
 				return
 			}
 			// atomic view: equal to one of the reference snapshots taken between invoke and return
